@@ -402,7 +402,28 @@ pub fn gen_driver(prop: &str, rng: &mut Rng, sh: &mut Shards, out: &str, thoroug
                         s.newline = true;
                     }
                 }
-                progs.push((Program { data: Vec::new(), items, interp: false, stdin, note: "services".into() }, Layout::plain()));
+                // one program in four is single-stepped: the prompt and the services then read the same input, in turn.
+                // The lines meant for the services are scattered among `n` lines; whoever's turn it is gets the next line
+                // (a prompt reads a data line as a command, a service reads an `n` as data).
+                if i % 4 == 3 {
+                    let n_ins = items.iter().filter(|x| matches!(x, Item::Ins(_))).count();
+                    let mut mixed: Vec<ScriptLine> = Vec::new();
+                    let mut data_lines = stdin.into_iter().peekable();
+                    for _ in 0..(n_ins + 4) {
+                        while data_lines.peek().is_some() && rng.chance(1, 6) {
+                            let mut l = data_lines.next().unwrap();
+                            // what the line means when a prompt gets it
+                            let t = l.raw.trim().to_ascii_lowercase();
+                            l.cls = if l.cls == "unreadable" { "unreadable" } else if t == "n" || t == "next" { "next" } else if t == "q" || t == "quit" { "quit" } else { "garbage" };
+                            l.newline = true;
+                            mixed.push(l);
+                        }
+                        mixed.push(ScriptLine::next(rng));
+                    }
+                    progs.push((Program { data: Vec::new(), items, interp: true, stdin: mixed, note: "services-stepped".into() }, Layout::plain()));
+                } else {
+                    progs.push((Program { data: Vec::new(), items, interp: false, stdin, note: "services".into() }, Layout::plain()));
+                }
             }
             // the small corner of every console-output service: counts and columns 0, 1, 2 in every combination
             for cx in [0u16, 1, 2] {
